@@ -428,7 +428,34 @@ def c16(run):
         extra_assumptions=["the scratch tree contains no symlinks; file-system case folding is out of scope", "content is identified by body / Content-Length"])
 
 
-PROPS = {"C16": c16, "C05": c05, "C06": c06, "C11": c11, "C04": c04, "C03": c03, "C14": c14, "C15": c15, "C13": c13, "C01": c01, "C02": c02, "C07": c07, "C08": c08, "C09": c09, "C10": c10, "C12": c12}
+# ============================================================== accessors
+def c18(run):
+    quick = run.tier == "quick"
+    run.build_harness()
+    env = {"VERIF_SEED": str(run.seed), "VERIF_VARIANTS": "3" if quick else "12"}
+    cfg = lambda dev, emit: ("SPECIFICATION Spec\nCONSTANTS\n Dev = %s\n EmitCases = %s\nINVARIANT Conforms\nCONSTRAINT EmitCase\nCHECK_DEADLOCK FALSE\n"
+                             % (vlib.tla_set(dev), "TRUE" if emit else "FALSE"))
+    run.tlc("Accessors", cfg(["D10"], False), name="AC_neg", expect_violation="Conforms", workers=4)
+    r = run.model_check("Accessors", cfg([], True), name="AC_gen", want_cases=True, workers=4)
+    run.cov["exhaustive"] = True
+    run.conformance("ac_table", "access", r["cases_file"], "AccessorsTrace", TRACE_CFG % "", env=env)
+    gen = os.path.join(run.work, "ac_rand.jsonl")
+    with open(gen, "w") as fo:
+        p = run.hrun(["access", "gen", run.seed, 5000 if quick else 200000], stdout=fo)
+    if p.returncode != 0:
+        raise Infra("access gen failed: " + p.stderr[-2000:])
+    run.conformance("ac_random", "access", gen, "AccessorsTrace", TRACE_CFG % "", env=env, chunk_events=40000)
+    return run.finish(
+        rule="TLC enumerates the complete decision table accessor x presence class x default (120 cells) and checks the branch structure "
+             "of each accessor against the single rule; every applicable cell is exercised on a real request context with several "
+             "concrete values per class, then random byte strings / huge numbers / floats as query, parameter and cookie values; each "
+             "result is validated by TLC against the rule with the standard conversion (strconv / net/url, computed by the harness) as "
+             "oracle; cookies go SetCookie -> Set-Cookie -> client jar -> Cookie header -> Cookie() and must come back byte for byte. "
+             "Non-trivial = every case (each has a distinct value / cell).",
+        extra_assumptions=["strconv / net/url are the conversion oracle", "byte-level fidelity is a logged fact compared for equality by TLC"])
+
+
+PROPS = {"C18": c18, "C16": c16, "C05": c05, "C06": c06, "C11": c11, "C04": c04, "C03": c03, "C14": c14, "C15": c15, "C13": c13, "C01": c01, "C02": c02, "C07": c07, "C08": c08, "C09": c09, "C10": c10, "C12": c12}
 
 
 def main():
